@@ -383,7 +383,7 @@ def checkCase (j : Json) : Except String Verdict := do
           -- C11 at login: admitted ⇒ documented any-of
           let (gres, _) := validateGroup u.groups a
           let gans : GroupAns := match gres with | .ok _ true => .member | .ok _ false => .notMember | _ => .error
-          if !specAdmit lower u.rules (toB (strD rd "email")) gans then v := v.mon "C11" "login_admits_without_rule" idx
+          if !specAdmit lower u.rules (toB (strD rd "email")) gans then v := v.mons ["C11", "C01"] "login_admits_without_rule" idx
         else
           -- C11 at login: everything else fine and the user satisfies a rule ⇒ must be admitted
           let rd := getJ inp "ansRedeem"
